@@ -150,6 +150,10 @@ func (env *Env) zero(t types.Type) Val {
 	s := env.sortOf(t)
 	c := env.c
 	switch {
+	case s == "Int" && isTime(types.Unalias(t)):
+		// the zero Time (year 1) is not the epoch: a constant below every Unix-nanosecond value
+		c.timeAxioms()
+		return Val{T: "time_zero", Ty: t}
 	case s == "Int":
 		return Val{T: "0", Ty: t}
 	case s == "Bool":
@@ -1340,6 +1344,9 @@ func (env *Env) evalComposite(x *ast.CompositeLit, st *State, hint types.Type) V
 		return Val{T: c.fresh("unk", "Int"), Ty: tInt}
 	}
 	t = env.subst(t)
+	if isTime(types.Unalias(t)) && len(x.Elts) == 0 {
+		return env.zero(t)
+	}
 	switch u := types.Unalias(t).Underlying().(type) {
 	case *types.Struct:
 		vals := make([]string, u.NumFields())
